@@ -51,4 +51,8 @@ CHECKS = {
         text='Bounded exhaustive checking with a solver completeness certificate: every (statement kinds, layout feature combination) within the bound is rendered to text by a layout model and parsed by the real tokenizer+parser; the statement stream (scope, selector, parameter, value / module, from, alias / filename) and each statement line number must equal the canonical list and the resulting configuration must equal that of the canonical flat layout. Selector scanning is explored over all token/gap sequences of length 4-5 in 6 contexts: accepted iff gap-free and well-formed, never repaired.',
         note=X_NOTE + ' Weakest use of the technique (DESIGN.md section 3): after the F-choices are made everything is concrete text processed natively; the solver certifies that the bounded choice space was covered completely (CONFIRMED).',
         technique='CrossHair/z3 exhaustive path exploration over layout/selector choice vectors; real tokenizer+parser run per leaf against a layout reference model'),
+    'C16': dict(
+        text='Bounded model checking of failed parses on the real code: 3 good statements (symbolic values through constants) with one of 13 fault kinds injected at every position, at include depth 0-2 (in-memory files behind Gin\'s reader interface), with leading blank/comment lines, ambient scope and a finalized config re-opened by unlock_config; the binding store after the failure must equal the prefix applied to a cleared config (for all integer values), scope/lock/parse-context stack restored, exception class preserved, file and line named once per include level, provenance of surviving bindings exact, and the remaining statements parse afterwards as after the prefix alone.',
+        note=X_NOTE + ' Interpretations in DESIGN.md section 9 (block-level atomicity of syntactic faults, line of an unknown reference).',
+        technique='CrossHair/z3 exhaustive path exploration over fault kind x position x include depth x context with symbolic statement values; reference = re-parse of the prefix'),
 }
